@@ -38,7 +38,7 @@ fn main() {
         },
         "C18" => p_iso::run(&tier, only),
         "C18-race" => p_iso::race_child(args.get(2).map(|s| s.as_str()).unwrap_or(""), args.get(3).and_then(|s| s.parse().ok()).unwrap_or(8)),
-        "C18-first" => p_iso::first_child(args.get(2).and_then(|s| s.parse().ok()).expect("row index")),
+        "C18-first" => p_iso::first_child(args.get(2).and_then(|s| s.parse().ok()).unwrap_or(usize::MAX)),
         "C18-seq" => p_iso::seq_child(args.get(2).map(|s| s.as_str()).unwrap_or("")),
         "C09" => p_tables::run_c09(&tier, only),
         "C10" => p_tables::run_c10(&tier, only),
